@@ -103,6 +103,22 @@ func expect(sc *scenario) (want string, signer int) {
 		return base, sc.Signer // no extended provider signature covers it
 	case "ep-id", "ep-addr", "ep-md", "ep-swap-sigs":
 		return "fail", 0
+	case "ep-attach":
+		// entries attached after signing: every entry is checked whatever the other fields
+		// are; a removal advertisement cannot carry any
+		attachMain := false
+		for _, e := range sc.Attach {
+			attachMain = attachMain || e.Named == sc.Provider
+		}
+		switch {
+		case sc.Rm:
+			return "fail", 0
+		case m.Index%4 == 1 && attachMain && base == "ok":
+			return "any", 0 // genuinely signed entries on a genuinely signed ad: accepted (the list is not covered by the ad signature)
+		case m.Index%4 == 1 && attachMain:
+			return "fail", 0
+		}
+		return "fail", 0 // unsigned, foreign-sealed, or without the main provider
 	case "ep-drop":
 		if sc.Eps[m.Ep].Named == sc.Provider && len(sc.Eps) > 1 {
 			return "fail", 0 // main provider no longer listed
@@ -359,6 +375,14 @@ func (r *run) rtCase(before, after *schema.Advertisement, sc *scenario) {
 }
 
 func whyFail(sc *scenario) string {
+	if sc.Mut.Kind == "ep-attach" {
+		how := []string{"unsigned", "genuinely signed", "one sealed by a foreign key", "genuinely signed, the main provider's left out"}[sc.Mut.Index%4]
+		what := "advertisement"
+		if sc.Rm {
+			what = "REMOVAL advertisement (which cannot carry extended providers)"
+		}
+		return fmt.Sprintf("%d extended-provider entries (%s) were attached to the signed %s", len(sc.Attach), how, what)
+	}
 	if sc.Mut.Kind != "" {
 		return "mutation " + sc.Mut.Kind
 	}
@@ -421,6 +445,19 @@ func (r *run) shrink(sc *scenario) *scenario {
 			}
 		}
 	}
+	for len(cur.Attach) > 1 {
+		n := len(cur.Attach)
+		try(func(s *scenario) { s.Attach = s.Attach[:len(s.Attach)-1] })
+		try(func(s *scenario) {
+			if len(s.Attach) > 1 {
+				s.Attach = s.Attach[1:]
+			}
+		})
+		if len(cur.Attach) == n {
+			break
+		}
+	}
+	try(func(s *scenario) { s.AttachOv = false })
 	for i := range cur.Eps {
 		try(func(s *scenario) { s.Eps[i].NAddrs = 0 })
 		try(func(s *scenario) { s.Eps[i].MdLen = 0 })
@@ -496,6 +533,9 @@ func scenarioSig(sc *scenario) string {
 		shape += "+" + sc.Codec
 	}
 	mut := sc.Mut.Kind
+	if mut == "ep-attach" {
+		mut = fmt.Sprintf("ep-attach[%d entries,%s]", len(sc.Attach), []string{"unsigned", "genuine", "one-foreign", "main-left-out"}[sc.Mut.Index%4])
+	}
 	if mut == "" {
 		mut = "none"
 	} else if sc.Mut.Ep >= 0 && strings.HasPrefix(mut, "e") {
